@@ -79,7 +79,9 @@ impl Gen
 	fn name(&mut self, ext: &str) -> String
 	{
 		self.nfile += 1;
-		format!("f{}.{}", self.nfile, ext)
+		// the path as it is WRITTEN in the source: relative to the directory of the file that mentions it; often in another directory
+		let dir = *self.rng.pick(&["", "", "", "sub/", "sub/", "x/y/", "a.d/", "./"]);
+		format!("{dir}f{}.{}", self.nfile, ext)
 	}
 
 	fn bytes(&mut self, n: usize) -> Vec<u8>
@@ -176,7 +178,23 @@ struct Case
 	shape: &'static str,
 }
 
-fn render_items(items: &[It], addrs: &[u64], files: &mut Vec<(String, Vec<u8>)>, sep: &str) -> String
+/// directory part (with trailing '/') of `dir` + the written path `name`, lexically normalised (`./`, `d/../`)
+fn join_rel(dir: &str, name: &str) -> String
+{
+	let mut comps: Vec<&str> = Vec::new();
+	let full = format!("{dir}{name}");
+	for c in full.split('/')
+	{
+		match c {"" | "." => (), ".." => {comps.pop();}, c => comps.push(c)}
+	}
+	comps.iter().map(|c| c.to_string()).collect::<Vec<_>>().join("/")
+}
+
+/// `dir` = directory (relative to the project root, with trailing '/' or empty) of the file the items are rendered into: paths in
+/// `.dfile` / `.include` are relative to the file that mentions them, before as well as after an include from another directory
+fn render_items(items: &[It], addrs: &[u64], files: &mut Vec<(String, Vec<u8>)>, sep: &str) -> String {render_items_in(items, addrs, files, sep, "")}
+
+fn render_items_in(items: &[It], addrs: &[u64], files: &mut Vec<(String, Vec<u8>)>, sep: &str, dir: &str) -> String
 {
 	let mut s = String::new();
 	for it in items
@@ -184,11 +202,13 @@ fn render_items(items: &[It], addrs: &[u64], files: &mut Vec<(String, Vec<u8>)>,
 		match it
 		{
 			It::Stmt(t, _) => s.push_str(t),
-			It::File(name, b) => {files.push((name.clone(), b.clone())); s.push_str(&format!(".dfile \"{name}\";"));},
+			It::File(name, b) => {files.push((join_rel(dir, name), b.clone())); s.push_str(&format!(".dfile \"{name}\";"));},
 			It::Include(name, v) =>
 			{
-				let inner = render_items(v, addrs, files, sep);
-				files.push((name.clone(), inner.into_bytes()));
+				let path = join_rel(dir, name);
+				let sub = match path.rfind('/') {Some(i) => path[..=i].to_owned(), None => String::new()};
+				let inner = render_items_in(v, addrs, files, sep, &sub);
+				files.push((path, inner.into_bytes()));
 				s.push_str(&format!(".include \"{name}\";"));
 			},
 			It::Ref(k) => s.push_str(&format!(".du32 rgn_{k};")),
@@ -450,7 +470,29 @@ fn run_trias(dir: &Path, c: &Case) -> RunOut
 	}
 	main.push_str(&c.tail);
 	main.push('\n');
-	for (name, data) in &files {std::fs::write(dir.join(name), data).unwrap();}
+	// decoys: a file of the same NAME but other content in the other directories of the project, so that a path resolved against
+	// the wrong directory silently picks up other bytes (without a decoy it is "file not found"); both happen
+	let mut dirs: Vec<String> = vec![String::new()];
+	for (name, _) in &files {let d = match name.rfind('/') {Some(i) => name[..=i].to_owned(), None => String::new()}; if !dirs.contains(&d) {dirs.push(d);}}
+	let mut decoys: Vec<(String, Vec<u8>)> = Vec::new();
+	for (name, data) in &files
+	{
+		let base = name.rsplit('/').next().unwrap();
+		if fnv(FNV_INIT, name.as_bytes()) % 3 == 0 {continue;}
+		for d in &dirs
+		{
+			let p = format!("{d}{base}");
+			if files.iter().any(|(n, _)| *n == p) || decoys.iter().any(|(n, _)| *n == p) {continue;}
+			let other: Vec<u8> = if base.ends_with(".asm") {b".du8 0xEE; .du8 0xEE; .du8 0xEE;\n".to_vec()} else {data.iter().map(|b| !b).collect()};
+			decoys.push((p, other));
+		}
+	}
+	for (name, data) in files.iter().chain(decoys.iter())
+	{
+		let p = dir.join(name);
+		if let Some(parent) = p.parent() {std::fs::create_dir_all(parent).unwrap();}
+		std::fs::write(p, data).unwrap();
+	}
 	std::fs::write(dir.join("main.asm"), &main).unwrap();
 	let out_path: PathBuf = dir.join("out.uf2");
 	if let Some(s) = &c.sentinel {std::fs::write(&out_path, s).unwrap();}
